@@ -25,26 +25,32 @@ def one(pattern, text, what):
 
 
 def int_expr(e):
-    """`16 << 10`, `1 << 16`, plain integers"""
-    e = e.strip()
-    m = re.fullmatch(r"(\d+)\s*<<\s*(\d+)", e)
-    if m:
-        return int(m.group(1)) << int(m.group(2))
-    if re.fullmatch(r"\d+", e):
-        return int(e)
-    raise Shape("unsupported constant expression %r" % e)
+    """a constant integer expression: literals (with `_`), `*`, `<<`, `+`, parentheses"""
+    e = e.strip().replace("_", "")
+    if not re.fullmatch(r"[0-9\s*<+()]+", e) or "<" in e.replace("<<", ""):
+        raise Shape("unsupported constant expression %r" % e)
+    try:
+        v = eval(e, {"__builtins__": {}}, {})
+    except Exception:
+        raise Shape("unsupported constant expression %r" % e)
+    if not isinstance(v, int) or v < 0:
+        raise Shape("unsupported constant expression %r" % e)
+    return v
 
 
 TYPE_MAX = {"i8": 2 ** 7 - 1, "i16": 2 ** 15 - 1, "i32": 2 ** 31 - 1, "i64": 2 ** 63 - 1, "isize": 2 ** 63 - 1,
             "u8": 2 ** 8 - 1, "u16": 2 ** 16 - 1, "u32": 2 ** 32 - 1, "u64": 2 ** 64 - 1, "usize": 2 ** 64 - 1}
 
 
-def max_expr(e):
-    """`isize::MAX`, `i16::MAX as isize`"""
-    m = re.fullmatch(r"(\w+)::MAX(?: as isize)?", e.strip())
-    if not m or m.group(1) not in TYPE_MAX:
+def max_expr(e, self_ty=None):
+    """`isize::MAX`, `i16::MAX as isize`, `Self::MAX`, `<i16>::MAX as isize`"""
+    m = re.fullmatch(r"<?(\w+)>?::MAX(?: as isize)?", e.strip())
+    ty = m.group(1) if m else None
+    if ty == "Self":
+        ty = self_ty
+    if ty not in TYPE_MAX:
         raise Shape("unsupported MAX_DIMACS expression %r" % e)
-    return TYPE_MAX[m.group(1)]
+    return TYPE_MAX[ty]
 
 
 def bytes_list(s):
@@ -81,9 +87,9 @@ def sec_dimacs_max(w):
                 break
         if chosen is None:
             raise Shape("no MAX_DIMACS for 64-bit targets in impl Dimacs for " + ty)
-        vals[ty] = max_expr(chosen)
+        vals[ty] = max_expr(chosen, ty)
         # from_dimacs / dimacs must be plain casts
-        one(r"fn from_dimacs\(value: isize\) -> Self \{\s*value(?: as %s)?\s*\}" % ty, body, "from_dimacs of " + ty)
+        one(r"fn from_dimacs\(value: isize\) -> Self \{\s*value(?: as (?:%s|Self))?\s*\}" % ty, body, "from_dimacs of " + ty)
         one(r"fn dimacs\(self\) -> isize \{\s*self(?: as isize)?\s*\}", body, "dimacs of " + ty)
     for ty in ("i8", "i16", "i32", "i64", "isize"):
         w("Definition max_dimacs_%s : Z := %d%%Z." % (ty, vals[ty]))
@@ -92,8 +98,8 @@ def sec_dimacs_max(w):
 def sec_lit_max_code(w):
     # ---- AIGER Lit::MAX_CODE
     lt = read("flussab-aiger/src/lit.rs")
-    one(r"const MAX_CODE: usize = <\$t>::MAX as usize;", lt, "Lit::MAX_CODE")
-    tys = re.findall(r"prim_int_impl!\((\w+)\);", lt)
+    one(r"const MAX_CODE: usize = <?(?:\$t|Self)>?::MAX as usize;", lt, "Lit::MAX_CODE")
+    tys = [t.strip() for grp in re.findall(r"prim_int_impl!\(([\w\s,]+)\);", lt) for t in grp.split(",") if t.strip()]
     if sorted(tys) != sorted(["u8", "u16", "u32", "u64", "usize"]):
         raise Shape("unexpected Lit implementations: %r" % tys)
     w("(* flussab_aiger::Lit::MAX_CODE *)")
@@ -109,7 +115,11 @@ def sec_dimacs_words(w):
         one(r'token::word\(reader, b"p"\)', src, "header introducer in " + f)
         word = one(r'token::word\(reader, b"(\w+)"\)\s*\.or_give_up', src, "format keyword in " + f)
         w("Definition kw_%s : bytes := %s.   (* %s *)" % (f, bytes_list(word), word))
-        hdr = one(r'writeln!\(\s*writer,\s*"(p %s[^"]*)"' % kw, src, "write_header of " + f)
+        fn_body = one(r"pub fn write_header[^{]*\{(.*?)\n\}", src, "write_header of " + f)
+        lits_ = [l for l in re.findall(r'(?<![A-Za-z0-9_])b?"((?:[^"\\\\]|\\\\.)*)"', fn_body) if l not in ("\\n", "")]
+        hdr = re.sub(r"\{\w*\}", "{}", "".join(lits_))
+        if not hdr.startswith("p %s " % kw):
+            raise Shape("write_header of %s: the literals of the function give %r" % (f, hdr))
         w("Definition hdr_fmt_%s : bytes := %s.   (* %s *)" % (f, bytes_list(hdr), hdr))
     w("Definition kw_p : bytes := %s." % bytes_list("p"))
     log = read("flussab-cnf/src/sat_solver_log.rs")
@@ -198,14 +208,15 @@ def sec_btor2_lowercase(w):
     tkb = read("flussab-btor2/src/token.rs")
     # ---- the 8-byte lowercase scanner (ascii_lowercase_u64): constants of the SWAR test
     one(r"if reader\.buf_len\(\) < offset \+ 8 \{\s*return ascii_lowercase_u64_cold\(reader, offset\);\s*\}", tkb, "lowercase fast-path test")
-    one(r"const REPEAET: u64 = 0x0101010101010101;", tkb, "lowercase REPEAET")
-    hi = one(r"let high_mismatch = word \^ \(REPEAET \* 0x([0-9a-f]+)\);", tkb, "lowercase high_mismatch")
-    lo = one(r"let low_bits = word & \(REPEAET \* 0x([0-9a-f]+)\);", tkb, "lowercase low_bits")
-    lo2 = one(r"let too_small = \(low_bits \^ \(REPEAET \* 0x([0-9a-f]+)\)\) \+ REPEAET;", tkb, "lowercase too_small")
-    big = one(r"let too_large = low_bits \+ \(REPEAET \* 0x([0-9a-f]+)\);", tkb, "lowercase too_large")
-    msk = one(r"let matches = \(high_mismatch \| too_small \| too_large\) & \(REPEAET \* 0x([0-9a-f]+)\);", tkb, "lowercase matches")
-    one(r"let shift = matches\.trailing_zeros\(\) & !7;\s*if shift == 64 \{\s*return \(word, 8\);\s*\}\s*"
-        r"let mask = !\(\(!0u64\) << shift\);\s*\(word & mask, \(shift / 8\) as usize\)", tkb, "lowercase result")
+    body = one(r"fn ascii_lowercase_u64\(reader: &mut DeferredReader, offset: usize\) -> \(u64, usize\) \{(.*?)\n\}", tkb, "ascii_lowercase_u64")
+    rep = one(r"const (\w+): u64 = 0x0101010101010101;", body, "lowercase byte-repeat constant")
+    consts = re.findall(r"\(%s \* 0x([0-9a-f]+)\)" % rep, body)
+    if len(consts) != 5:
+        raise Shape("lowercase scanner: expected five per-byte constants, found %r" % (consts,))
+    hi, lo, lo2, big, msk = consts
+    one(r"\^ \(%s \* 0x%s\)\) \+ %s;" % (rep, lo2, rep), body, "lowercase too_small")
+    one(r"\.trailing_zeros\(\) & !7;", body, "lowercase shift")
+    one(r"== 64 \{\s*return \(word, 8\);\s*\}", body, "lowercase all-eight case")
     one(r"Some\(c @ b'a'\.\.=b'z'\) => \{\s*len = i \+ 1;\s*c\s*\}", tkb, "lowercase cold path range")
     if lo != lo2:
         raise Shape("lowercase scanner: low_bits mask 0x%s differs from the too_small xor 0x%s" % (lo, lo2))
